@@ -81,6 +81,8 @@ def run(ctx):
         if f[0] != "E":
             continue
         _, cid, tid, g, impl, det, rt = f
+        if tid == "c":
+            continue
         tid = int(tid)
         crc = crc_of.get(tid)
         if crc not in ids:
